@@ -60,7 +60,10 @@ type Opts struct {
 }
 
 type Env struct {
-	O      Opts
+	// StartCtx, if set, is the context of the NEXT start (storeapi.NewStore -> FracManager.Load -> Active.Replay), as the
+	// signal context of cmd/seq-db is: a start can be cancelled while it replays
+	StartCtx context.Context
+	O        Opts
 	Store  *storeapi.Store
 	Client pb.StoreApiClient
 	MP     *mappingprovider.MappingProvider
@@ -148,7 +151,11 @@ func (e *Env) open() error {
 	}
 	fcPath := filepath.Join(e.O.Dir, ".frac-cache")
 	before := fileIno(fcPath)
-	st, err := storeapi.NewStore(context.Background(), cfg, e.MP)
+	startCtx := context.Background()
+	if e.StartCtx != nil {
+		startCtx, e.StartCtx = e.StartCtx, nil // one start only
+	}
+	st, err := storeapi.NewStore(startCtx, cfg, e.MP)
 	if err != nil {
 		return err
 	}
